@@ -17,14 +17,14 @@ type kind struct {
 
 var kinds = map[string]kind{
 	"shard": {genShard, runShard},
-	"prod": {genProd, runProd},
-	"idem": {genIdem, runIdem},
-	"cons": {genCons, runCons},
-	"grp":  {genGrp, runGrp},
-	"cmt":  {genCmt, runCmt},
-	"txn":  {genTxn, runTxn},
-	"eos":  {genEos, runEos},
-	"cls":  {genCls, runCls},
+	"prod":  {genProd, runProd},
+	"idem":  {genIdem, runIdem},
+	"cons":  {genCons, runCons},
+	"grp":   {genGrp, runGrp},
+	"cmt":   {genCmt, runCmt},
+	"txn":   {genTxn, runTxn},
+	"eos":   {genEos, runEos},
+	"cls":   {genCls, runCls},
 }
 
 func TestMain(m *testing.M) {
